@@ -299,3 +299,39 @@ CLAIMS["C10"] = {
             "through object attributes (versioned history). Observation O4 (results_turnout visible in historical runs when turnout is "
             "not an estimand) does not reach any estimate and is not counted.",
 }
+
+
+# ---- amendments made after the seeded changes / defect hunts (applied to the assembled texts above) ---------------------------
+_AMEND = {
+    "C01": [("(no U at classification level, by design)",
+             "(at classification level the code leaves the whole third frame out: right for unexpected units, which have no "
+             "classification, but it also drops the non-modelled baseline units whose classification is known - the open known "
+             "finding K1, reported at its three call sites)"),
+            ("so groups existing only through unexpected or only through nonreporting units keep their votes;",
+             "so groups existing only through unexpected or only through nonreporting units keep their votes; the reporting flag is 1 "
+             "on the reporting frame and 0 on the other two; missing vote counts of passed-through units count as 0;")],
+    "C09": [("baseline left join and both unreporting policies.",
+             "baseline left join and both unreporting policies (the zero policy also fills every results-derived column).")],
+    "C10": [("non-modelled and unexpected units are in neither model frame (truth table);",
+             "non-modelled and unexpected units are in neither model frame and in no outlier model's input (truth table);")],
+    "C11": [("so the run cannot fail on the unknown classification.",
+             "so the run cannot fail on the unknown classification; the id parsers that recover its keys are total (no unguarded "
+             "index into the split id); every quotient by a group turnout total in the bootstrap aggregate functions maps 0/0 to 0.")],
+    "C12": [("(sample, default_rng, generator draws, scipy bootstrap, stdlib random, clocks)",
+             "(sample, default_rng, generator draws, scipy bootstrap and distribution.rvs, stdlib random, clocks)")],
+    "C14": [("duplicate ids raise ModelClientException;",
+             "duplicate ids (counted per unit id, not per identical row) raise ModelClientException;")],
+    "C19": [("each frame stamped with its own version's time in the handler's timezone;",
+             "each frame stamped, inside the loop that receives it together with its version, with that version's time in the "
+             "handler's timezone;")],
+    "C05": [("every step of the closed form:",
+             "every step of the closed form (after excluding closures that outlive the estimand loop variable they read):")],
+    "C02": [("bootstrap pred_margin is the documented quotient over the reported pred_turnout;",
+             "bootstrap pred_margin is the documented quotient over the reported pred_turnout, the unit table shows exactly the vectors "
+             "the group totals sum, and with several keys the indicator columns are re-ordered by the keys so that column i is row i of "
+             "the key-sorted table;")],
+}
+for _pid, _pairs in _AMEND.items():
+    for _old, _new in _pairs:
+        assert _old in CLAIMS[_pid]["level"], (_pid, _old)
+        CLAIMS[_pid]["level"] = CLAIMS[_pid]["level"].replace(_old, _new)
